@@ -3,20 +3,22 @@
    announcements, withdrawals, API routes, peer removal / re-addition) plus the monitoring controls
      BmpOn(pol)  - a BMP station is configured with route-monitoring policy pol (pre / post / local / all)
      BmpOff      - the station is de-configured
+     BmpDrop     - the station closes the connection; the daemon notices at its next write (a session coming
+                   up or going down always makes it write) and opens a new monitoring session
      Dump        - virtual time advances over the next tick of the MRT table dumper; the dump is read back.
    (The MRT updates dumper runs from the start.)  One JSON schedule per behaviour. *)
 EXTENDS Speaker, SpeakerDom, Json
 
 CONSTANTS MaxSteps, StartPol, Warm     \* Warm: every neighbour is brought up first
 
-VARIABLES gone, bmp, hist, done
-gvars == <<up, inr, loc, impPol, expPol, inrPol, expEff, gone, bmp, hist, done>>
+VARIABLES gone, bmp, dropped, hist, done
+gvars == <<up, inr, loc, impPol, expPol, inrPol, expEff, gone, bmp, dropped, hist, done>>
 
 SetToSeq(S) == LET RECURSIVE F(_)
                    F(T) == IF T = {} THEN <<>> ELSE LET m == CHOOSE a \in T : TRUE IN <<m>> \o F(T \ {m})
                IN F(S)
 UpSteps == IF Warm THEN LET q == SetToSeq(Peers) IN [i \in 1..Len(q) |-> [ev |-> "Up", p |-> q[i]]] ELSE <<>>
-GInit == /\ gone = {} /\ done = FALSE
+GInit == /\ gone = {} /\ done = FALSE /\ dropped = FALSE
          /\ up = [p \in Peers |-> Warm]
          /\ inr = [p \in Peers |-> [x \in Prefixes |-> NoRoute]]
          /\ loc = [x \in Prefixes |-> NoRoute]
@@ -29,39 +31,43 @@ GInit == /\ gone = {} /\ done = FALSE
 Log(e) == hist' = Append(hist, e)
 Coin(n) == RandomElement(1..n) = 1
 
-GUp(p)   == PUp(p) /\ p \notin gone /\ Log([ev |-> "Up", p |-> p]) /\ UNCHANGED <<gone, bmp>>
-GDown(p) == Coin(3) /\ PDown(p) /\ Log([ev |-> "Down", p |-> p]) /\ UNCHANGED <<gone, bmp>>
+GUp(p)   == PUp(p) /\ p \notin gone /\ Log([ev |-> "Up", p |-> p]) /\ UNCHANGED <<gone, bmp>> /\ dropped' = FALSE
+GDown(p) == Coin(3) /\ PDown(p) /\ Log([ev |-> "Down", p |-> p]) /\ UNCHANGED <<gone, bmp>> /\ dropped' = FALSE
 GAnn(p)  == /\ up[p]
             /\ \E x \in {RandomElement(Prefixes)} : \E c \in {RandomElement(VarCodes)} :
                  LET r == MkRoute(PInfo, p, c) IN PAnn(p, x, r) /\ Log([ev |-> "Ann", p |-> p, x |-> x, r |-> r])
-            /\ UNCHANGED <<gone, bmp>>
+            /\ UNCHANGED <<gone, bmp, dropped>>
 GWd(p)   == /\ up[p]
             /\ \E x \in {RandomElement(Prefixes)} : PWd(p, x) /\ Log([ev |-> "Wd", p |-> p, x |-> x])
-            /\ UNCHANGED <<gone, bmp>>
+            /\ UNCHANGED <<gone, bmp, dropped>>
 GApiAdd  == \E x \in {RandomElement(Prefixes)} : \E c \in {RandomElement({0, 1})} :
-              LET r == MkLocal(c) IN PApiAdd(x, r) /\ Log([ev |-> "ApiAdd", x |-> x, r |-> r]) /\ UNCHANGED <<gone, bmp>>
-GApiDel  == \E x \in {RandomElement(Prefixes)} : PApiDel(x) /\ Log([ev |-> "ApiDel", x |-> x]) /\ UNCHANGED <<gone, bmp>>
+              LET r == MkLocal(c) IN PApiAdd(x, r) /\ Log([ev |-> "ApiAdd", x |-> x, r |-> r]) /\ UNCHANGED <<gone, bmp, dropped>>
+GApiDel  == \E x \in {RandomElement(Prefixes)} : PApiDel(x) /\ Log([ev |-> "ApiDel", x |-> x]) /\ UNCHANGED <<gone, bmp, dropped>>
 GDelPeer(p) == /\ p \notin gone /\ Coin(4)
                /\ (IF up[p] THEN PDown(p) ELSE UNCHANGED pvars)
                /\ gone' = gone \cup {p} /\ Log([ev |-> "DelPeer", p |-> p]) /\ UNCHANGED bmp
+               /\ dropped' = (dropped /\ ~up[p])
 GAddPeer(p) == /\ p \in gone /\ gone' = gone \ {p}
-               /\ Log([ev |-> "AddPeer", p |-> p]) /\ UNCHANGED <<up, inr, loc, polvars, bmp>>
+               /\ Log([ev |-> "AddPeer", p |-> p]) /\ UNCHANGED <<up, inr, loc, polvars, bmp, dropped>>
 
 BmpPols == <<"pre", "pre", "all", "all", "local", "post">>
 GBmpOn  == /\ bmp = "off"
            /\ \E pol \in {BmpPols[RandomElement(1..Len(BmpPols))]} : bmp' = pol /\ Log([ev |-> "BmpOn", pol |-> pol])
-           /\ UNCHANGED <<up, inr, loc, polvars, gone>>
+           /\ dropped' = FALSE /\ UNCHANGED <<up, inr, loc, polvars, gone>>
 GBmpOff == /\ bmp # "off" /\ Coin(3) /\ bmp' = "off" /\ Log([ev |-> "BmpOff"])
-           /\ UNCHANGED <<up, inr, loc, polvars, gone>>
-GDump   == Log([ev |-> "Dump"]) /\ UNCHANGED <<up, inr, loc, polvars, gone, bmp>>
+           /\ dropped' = FALSE /\ UNCHANGED <<up, inr, loc, polvars, gone>>
+(* the connection is lost while some neighbour is established (otherwise nothing is there to be re-sent) *)
+GBmpDrop == /\ bmp # "off" /\ ~dropped /\ (\E p \in Peers : up[p]) /\ dropped' = TRUE /\ Log([ev |-> "BmpDrop"])
+            /\ UNCHANGED <<up, inr, loc, polvars, gone, bmp>>
+GDump   == Log([ev |-> "Dump"]) /\ UNCHANGED <<up, inr, loc, polvars, gone, bmp, dropped>>
 
 (* a single Finish step ends the behaviour: exactly the behaviour the simulator followed is printed *)
 GFinish == /\ Len(hist) >= MaxSteps /\ ~done /\ done' = TRUE
-           /\ UNCHANGED <<up, inr, loc, polvars, gone, bmp, hist>>
+           /\ UNCHANGED <<up, inr, loc, polvars, gone, bmp, dropped, hist>>
 GStep == /\ Len(hist) < MaxSteps /\ UNCHANGED done
          /\ \/ \E p \in Peers : GUp(p) \/ GDown(p) \/ GAnn(p) \/ GAnn(p) \/ GWd(p) \/ GDelPeer(p) \/ GAddPeer(p)
             \/ GApiAdd \/ GApiDel
-            \/ GBmpOn \/ GBmpOn \/ GBmpOn \/ GBmpOff
+            \/ GBmpOn \/ GBmpOn \/ GBmpOn \/ GBmpOff \/ GBmpDrop \/ GBmpDrop
             \/ GDump \/ GDump
 
 GNext == GStep \/ GFinish
